@@ -305,3 +305,49 @@ M("C04-labels-shifted", {"C04": "C04.R5"}, ("main_loop.py", "        labels[i] =
 M("C04-echo-K-from-list", {"C04": "C04.R5"}, ("main_loop.py", "        num_clusters=current_model_state.arguments.num_clusters,\n        point_labels=labels,", "        num_clusters=len(set(labels)),\n        point_labels=labels,"))
 M("C04-twin-floordiv", {"C04": None, "C10": None}, (_DP, "    front_length = int((window_size - 1)/2)", "    front_length = (window_size - 1) // 2"))
 M("C04-twin-labels-list", {"C04": None}, ("main_loop.py", "    labels = [-1] * num_data_points\n    for i in range(stacked_training_data.shape[0]):\n        labels[i] = current_model_state.point_labels[i]\n", "    labels = list(current_model_state.point_labels)\n"))
+
+# ---------------------------------------------------------------- C03
+_GL = "graphical_lasso.py"
+M("C03-prefix-eigen-cancellation", {"C03": "C03.R2"},
+  (_S, "    eigenvalues = d + root\n    eigenvalues[negative] = (4*rho) / (root[negative] - d[negative])\n", "    eigenvalues = d + root\n"))
+M("C03-eigen-mask-flipped", {"C03": "C03.R2"}, (_S, "    negative = d < 0\n", "    negative = d > 0\n"))
+M("C03-eigen-rationalised-everywhere", {"C03": "C03.R2"}, (_S, "    eigenvalues = d + root\n    eigenvalues[negative] = (4*rho) / (root[negative] - d[negative])\n", "    eigenvalues = (4*rho) / (root - d)\n"))
+M("C03-returns-z", {"C03": "C03.R1"}, (_S, "    return x\n\n\ndef admm_update_u", "    return z\n\n\ndef admm_update_u"))
+M("C03-mirror-keeps-double-diagonal", {"C03": "C03.R3", "C11": "C11.R3"}, ("matrix_compression.py", "    full_matrix = (upper_tri + upper_tri.T) - np.diag(diag_temp)", "    full_matrix = (upper_tri + upper_tri.T)"))
+M("C03-mirror-not-symmetric", {"C03": "C03.R3", "C11": "C11.R3"}, ("matrix_compression.py", "    full_matrix = (upper_tri + upper_tri.T) - np.diag(diag_temp)", "    full_matrix = (upper_tri + upper_tri) - np.diag(diag_temp)"))
+M("C03-filter-nonstrict", {"C03": "C03.R4"}, (_GL, "    small_element_indices = np.abs(filtered) < epsilon\n", "    small_element_indices = np.abs(filtered) <= epsilon\n"))
+M("C03-filter-one-sided", {"C03": "C03.R4"}, (_GL, "    small_element_indices = np.abs(filtered) < epsilon\n", "    small_element_indices = filtered < epsilon\n"))
+M("C03-filter-sets-eps", {"C03": "C03.R4"}, (_GL, "    filtered[small_element_indices] = 0\n", "    filtered[small_element_indices] = epsilon\n"))
+M("C03-filter-eps-default", {"C03": "C03.R4"}, (_GL, "        model.arguments.min_meaningful_covariance,\n        copy=False", "        1e-8,\n        copy=False"))
+M("C03-filter-after-inverse", {"C03": "C03.R4"}, (_GL, "    computed_covariance = np.linalg.inv(optimized_inverse_covariance)\n", "    computed_covariance = np.linalg.inv(matrix_compression.reinflate_matrix(admm_result))\n"))
+M("C03-prefix-logdet-update", {"C03": "C03.R5"}, (_GL, "    updated_cluster.log_determinant = np.linalg.slogdet(\n        optimized_inverse_covariance\n    )[1]", "    updated_cluster.log_determinant = np.log(\n        np.linalg.det(optimized_inverse_covariance)\n    )"))
+M("C03-prefix-logdet-refresh", {"C03": "C03.R5", "C05": "C05.R5"}, (_L, "np.linalg.slogdet(inverse_covariance)[1]", "np.log(np.linalg.det(inverse_covariance))"))
+M("C03-logdet-chol-prod", {"C03": "C03.R5", "C05": "C05.R5"}, (_L, "np.linalg.slogdet(inverse_covariance)[1]", "2 * np.log(np.prod(np.diag(np.linalg.cholesky(inverse_covariance))))"))
+M("C03-logdet-sign", {"C03": "C03.R5"}, (_GL, "    )[1]\n    return updated_cluster", "    )[0]\n    return updated_cluster"))
+M("C03-twin-chol-sum", {"C03": None}, (_L, "np.linalg.slogdet(inverse_covariance)[1]", "2 * np.sum(np.log(np.diag(np.linalg.cholesky(inverse_covariance))))"))
+M("C03-twin-two-sided-mask", {"C03": None}, (_GL, "    small_element_indices = np.abs(filtered) < epsilon\n", "    small_element_indices = (filtered < epsilon) & (filtered > -epsilon)\n"))
+
+# ---------------------------------------------------------------- C11
+_UV = "admm/unique_values.py"
+_MC = "matrix_compression.py"
+M("C11-index-r-minus-one", {"C11": ["C11.R1", "C11.R5"]}, (_UV, "    return uncompressed_size*(r+1) - r*(r+1)/2", "    return uncompressed_size*(r+1) - r*(r-1)/2"))
+M("C11-index-after-target", {"C11": ["C11.R1", "C11.R5"]}, (_UV, "    return (full_row_length-1) - c", "    return full_row_length - c"))
+M("C11-index-no-guard", {"C11": "C11.R1"}, (_UV, "    if column < row:\n        raise IndexError((f\"Coordinates ({row}, {column}) are outside \"\n                         \"the matrix's upper triangle.\"))\n", ""))
+M("C11-size-formula", {"C11": "C11.R2"}, (_MC, "    n = np.sqrt(8 * flattened_size + 1)\n    return int((n-1) / 2)", "    n = np.sqrt(8 * flattened_size + 1)\n    return int(n / 2)"))
+M("C11-size-no-plus-one", {"C11": "C11.R2"}, (_MC, "    n = np.sqrt(8 * flattened_size + 1)", "    n = np.sqrt(8 * flattened_size)"))
+M("C11-state-size", {"C11": "C11.R2"}, (_S, "    compressed_array_size = int((matrix_size * (matrix_size + 1)) / 2)", "    compressed_array_size = int((matrix_size * (matrix_size - 1)) / 2)"))
+M("C11-table-int8", {"C11": "C11.R3"}, (_MC, "    return np.triu_indices(size)", "    rows, cols = np.triu_indices(size)\n    return (rows.astype(np.int8), cols.astype(np.int8))"))
+M("C11-table-strict-triangle", {"C11": "C11.R3"}, (_MC, "    return np.triu_indices(size)", "    return np.triu_indices(size, k=1)"))
+M("C11-compress-other-size", {"C11": "C11.R3"}, (_MC, "    matrix_size = full_matrix.shape[0]\n    return", "    matrix_size = full_matrix.shape[0] - 1\n    return"))
+M("C11-corners-drop-last", {"C11": ["C11.R4", "C11.R5"]}, (_UV, "    num_occurrences = window_size - block_id\n    # All blocks", "    num_occurrences = window_size - block_id - 1\n    # All blocks"))
+M("C11-corners-start-column", {"C11": ["C11.R4", "C11.R5"]}, (_UV, "    start_column = block_id * block_size\n", "    start_column = block_id * (block_size - 1)\n"))
+M("C11-corners-walk-stop", {"C11": ["C11.R4", "C11.R5"]},
+  (_UV, "    for i in range(num_occurrences):\n        corner_coordinates.append((\n            start_row + i * block_size,\n            start_column + i * block_size\n        ))",
+   "    for (i, col) in enumerate(range(start_column, window_size * block_size - 1, block_size)):\n        corner_coordinates.append((\n            start_row + i * block_size,\n            col\n        ))"))
+M("C11-positions-swapped", {"C11": ["C11.R4", "C11.R5"]}, (_UV, "    element_positions = [(r + row_in_block, c + col_in_block) for (r, c) in block_corners]", "    element_positions = [(r + col_in_block, c + row_in_block) for (r, c) in block_corners]"))
+M("C11-compressed-wrong-n", {"C11": "C11.R5"}, (_UV, "    full_matrix_size = block_size * num_blocks\n", "    full_matrix_size = block_size * num_blocks + 1\n"))
+M("C11-slices-cols-from-rows", {"C11": "C11.R5", "C18": None}, (_UV, "    column_indices = [c for (_, c) in positions_as_coordinates]", "    column_indices = [r for (r, _) in positions_as_coordinates]"))
+M("C11-table-no-cache-global", {"C11": "C11.R5", "C14": "C14.R6"},
+  (_UV, "@functools.cache\ndef locations_compressed(", "_LOCATIONS = {}\n\n\ndef locations_compressed("),
+  (_UV, "    full_matrix_size = block_size * num_blocks\n    indices = [_compressed_index(r, c, full_matrix_size)\n               for (r, c) in positions_as_coordinates]\n    return indices", "    full_matrix_size = block_size * num_blocks\n    key = (block_id, row_in_block, col_in_block, full_matrix_size)\n    if key not in _LOCATIONS:\n        _LOCATIONS[key] = [_compressed_index(r, c, full_matrix_size)\n                           for (r, c) in positions_as_coordinates]\n    return _LOCATIONS[key]"))
+M("C11-twin-index-direct", {"C11": None}, (_UV, "    return int(\n        _size_including_this_row(row, uncompressed_size)\n        - (_elements_in_row_after_target(column, uncompressed_size) + 1)\n        )", "    return int(uncompressed_size * row - row * (row + 1) / 2 + column)"))
